@@ -67,7 +67,8 @@ type FS struct {
 	OnKill    func(gen int)
 	Trace     []Op
 	KeepTrace bool
-	Capacity  int64 // 0 = unlimited
+	Capacity  int64  // 0 = unlimited
+	Umask     uint32 // permission bits cleared from the mode of every file and directory the code under test creates
 	used      int64
 	Stats     Stats
 }
@@ -203,7 +204,7 @@ func (fs *FS) MkdirAll(path string, mode uint32) error {
 			if n.Unusable {
 				return syscall.EACCES
 			}
-			c = &node{name: p, dir: true, children: map[string]*node{}, mode: mode}
+			c = &node{name: p, dir: true, children: map[string]*node{}, mode: mode &^ fs.Umask}
 			n.addChild(c)
 		}
 		n = c
@@ -262,7 +263,7 @@ func (fs *FS) Open(path string, flags int, mode uint32) (int, error) {
 		if parent.Unusable {
 			return -1, syscall.EACCES
 		}
-		n = &node{name: name, mode: mode}
+		n = &node{name: name, mode: mode &^ fs.Umask}
 		parent.addChild(n)
 	} else {
 		if flags&O_CREAT != 0 && flags&O_EXCL != 0 {
